@@ -234,3 +234,180 @@ void wb_local_pool_access(const void *pool)
         wb_lp[wb_nlp++].last = G.steps;
     }
 }
+
+/* ---- M-waitlist: reference model of every ABTI_waitlist (mutex, condition variable, barrier,
+ * eventual, future), driven by the events of abti_waitlist.h, which are all issued while the
+ * lock protecting the list is held.  The reference is the *set* of elements enqueued and not yet
+ * dequeued (order is not part of any property); after every event that leaves the list in a
+ * consistent state the real list (p_head, p_next..., p_tail) must be a well-formed chain over
+ * exactly that set, and a timed waiter that is not the head must have a correct back link (the
+ * time-out path relies on it).  A signal pass dequeues exactly one element if there was one, a
+ * broadcast pass every element. ---- */
+#define WB_WL_N 64
+#define WB_WL_MAX 48
+typedef struct wb_wlrec {
+    const ABTI_waitlist *wl;
+    int n;
+    const ABTI_thread *e[WB_WL_MAX];
+    unsigned char timed[WB_WL_MAX];
+    int in_pass, pass_n0, pass_deq;
+} wb_wlrec;
+static wb_wlrec wb_wl[WB_WL_N];
+static int wb_nwl;
+static unsigned long wb_wl_events, wb_wl_checks;
+static int wb_wl_off; /* a table overflowed: the monitor is off for the rest of the run */
+
+static wb_wlrec *wl_find(const ABTI_waitlist *wl, int add)
+{
+    for (int i = 0; i < wb_nwl; i++)
+        if (wb_wl[i].wl == wl)
+            return &wb_wl[i];
+    if (!add)
+        return NULL;
+    if (wb_nwl == WB_WL_N) {
+        wb_wl_off = 1;
+        return NULL;
+    }
+    wb_wlrec *r = &wb_wl[wb_nwl++];
+    memset(r, 0, sizeof *r);
+    r->wl = wl;
+    return r;
+}
+static void wl_drop_if_empty(wb_wlrec *r)
+{
+    if (r && r->n == 0 && !r->in_pass) {
+        *r = wb_wl[--wb_nwl];
+    }
+}
+static int wl_index(wb_wlrec *r, const ABTI_thread *t)
+{
+    for (int i = 0; i < r->n; i++)
+        if (r->e[i] == t)
+            return i;
+    return -1;
+}
+static void wl_remove(wb_wlrec *r, int i)
+{
+    r->n--;
+    r->e[i] = r->e[r->n];
+    r->timed[i] = r->timed[r->n];
+}
+/* compare the real list with the reference set */
+static void wl_verify(const ABTI_waitlist *wl, wb_wlrec *r, const char *after)
+{
+    int nref = r ? r->n : 0;
+    wb_wl_checks++;
+    const ABTI_thread *p = wl->p_head, *prev = NULL;
+    int cnt = 0;
+    if (!p && wl->p_tail)
+        sim_fail("waitlist:damaged", "after %s: wait list %p has no head but a tail %p (%d waiters expected)", after, (const void *)wl, (const void *)wl->p_tail, nref);
+    while (p) {
+        if (cnt >= nref)
+            sim_fail("waitlist:damaged", "after %s: wait list %p links more than the %d elements that are waiting (element #%d: %p)%s", after, (const void *)wl, nref, cnt,
+                     (const void *)p, cnt > WB_WL_MAX ? ", probably a cycle" : "");
+        int i = wl_index(r, p);
+        if (i < 0)
+            sim_fail("waitlist:damaged", "after %s: wait list %p links element %p (position %d), which is not waiting there (already dequeued or never enqueued)", after,
+                     (const void *)wl, (const void *)p, cnt);
+        if (prev && r->timed[i] && p->p_prev != prev)
+            sim_fail("waitlist:damaged", "after %s: timed waiter %p at position %d of wait list %p has back link %p, its predecessor is %p", after, (const void *)p, cnt,
+                     (const void *)wl, (const void *)p->p_prev, (const void *)prev);
+        prev = p;
+        p = p->p_next;
+        cnt++;
+    }
+    if (cnt != nref)
+        sim_fail("waitlist:damaged", "after %s: wait list %p links %d elements, %d are waiting (an element was lost from the list)", after, (const void *)wl, cnt, nref);
+    if (wl->p_tail != prev)
+        sim_fail("waitlist:damaged", "after %s: wait list %p: tail pointer %p is not the last element %p", after, (const void *)wl, (const void *)wl->p_tail, (const void *)prev);
+}
+void wb_waitlist_event(int kind, const void *obj, const void *who)
+{
+    const ABTI_waitlist *wl = (const ABTI_waitlist *)obj;
+    const ABTI_thread *t = (const ABTI_thread *)who;
+    wb_wlrec *r;
+    if (wb_wl_off)
+        return;
+    wb_wl_events++;
+    switch (kind) {
+        case 1: /* ENQUEUE */
+        case 8: /* ENQUEUE_TIMED */
+            r = wl_find(wl, 1);
+            if (!r)
+                return;
+            if (r->in_pass)
+                sim_fail("waitlist:damaged", "element %p is appended to wait list %p in the middle of a signal/broadcast pass", who, obj);
+            if (wl_index(r, t) >= 0)
+                sim_fail("waitlist:damaged", "element %p is appended to wait list %p, where it is already waiting", who, obj);
+            if (r->n == WB_WL_MAX) {
+                wb_wl_off = 1;
+                return;
+            }
+            r->e[r->n] = t;
+            r->timed[r->n++] = kind == 8;
+            wl_verify(wl, r, "an enqueue");
+            break;
+        case 2: { /* DEQUEUE by signal/broadcast (before the wake-up) */
+            r = wl_find(wl, 0);
+            if (!r)
+                sim_fail("waitlist:damaged", "signal/broadcast on wait list %p dequeues %p although nobody is waiting there", obj, who);
+            if (!r->in_pass) {
+                r->in_pass = 1;
+                r->pass_n0 = r->n;
+                r->pass_deq = 0;
+            }
+            int i = wl_index(r, t);
+            if (i < 0)
+                sim_fail("waitlist:damaged", "signal/broadcast on wait list %p dequeues %p, which is not waiting there (timed out, dequeued before, or never enqueued)", obj,
+                         who);
+            wl_remove(r, i);
+            r->pass_deq++;
+            break;
+        }
+        case 3:   /* SIGNAL_DONE */
+        case 9: { /* BROADCAST_DONE */
+            r = wl_find(wl, 0);
+            int n0 = r ? (r->in_pass ? r->pass_n0 : r->n) : 0;
+            int deq = r && r->in_pass ? r->pass_deq : 0;
+            if (r)
+                r->in_pass = 0;
+            if (kind == 3 && deq != (n0 >= 1 ? 1 : 0))
+                sim_fail("waitlist:signal-count", "a signal on wait list %p with %d waiters woke %d of them (exactly one is due when there is one)", obj, n0, deq);
+            if (kind == 9 && deq != n0)
+                sim_fail("waitlist:broadcast-count", "a broadcast on wait list %p with %d waiters woke %d of them", obj, n0, deq);
+            wl_verify(wl, r, kind == 3 ? "a signal" : "a broadcast");
+            wl_drop_if_empty(r);
+            break;
+        }
+        case 4: { /* TIMEOUT_UNLINK */
+            r = wl_find(wl, 0);
+            int i = r ? wl_index(r, t) : -1;
+            if (i < 0)
+                sim_fail("waitlist:damaged", "timed waiter %p unlinks itself from wait list %p after it had been dequeued by a signal: the signal is lost and the list is changed by a non-member", who, obj);
+            wl_remove(r, i);
+            wl_verify(wl, r, "a time-out");
+            wl_drop_if_empty(r);
+            break;
+        }
+        case 5: /* TIMEOUT_WOKEN: deadline passed, but already dequeued */
+            r = wl_find(wl, 0);
+            if (r && wl_index(r, t) >= 0)
+                sim_fail("waitlist:damaged", "timed waiter %p of wait list %p found itself READY although no signal has dequeued it", who, obj);
+            wl_verify(wl, r, "a time-out that found itself signalled");
+            break;
+    }
+}
+void wb_waitlist_stats(unsigned long *events, unsigned long *checks)
+{
+    *events = wb_wl_events;
+    *checks = wb_wl_checks;
+}
+const void *wb_cond_waitlist(ABT_cond cond)
+{
+    return &ABTI_cond_get_ptr(cond)->waitlist;
+}
+int wb_waitlist_len(const void *wl)
+{
+    wb_wlrec *r = wl_find((const ABTI_waitlist *)wl, 0);
+    return r ? r->n : 0;
+}
